@@ -523,11 +523,17 @@ func (w *OggWriter) Close() error {
 	}()
 
 	if w.fd == nil {
+		if w.stream == nil {
+			return nil
+		}
+		// not seekable: the last page cannot be rewritten, so terminate
+		// the logical stream with an empty end-of-stream page.
+		closeErr := writeNilEndOfStreamPage(w.stream, w.checksumTable, w.track)
 		if closer, ok := w.stream.(io.Closer); ok {
-			return closer.Close()
+			closeErr = errors.Join(closeErr, closer.Close())
 		}
 
-		return nil
+		return closeErr
 	}
 
 	closeErr := markTrackEndOfStream(w.fd, w.checksumTable, w.track)
